@@ -98,7 +98,7 @@ class Gen:
                 asig = rng.choice([KW, KW_UID, KW_UID_KWONLY])
                 req = rng.choice(valid_reqs)[1]
                 cases.append(("ok", version, others + [self.route(action, ("ret", snake(rng.choice(valid_resps)[1])), sig=sig,
-                                                                 is_async=rng.random() < 0.5, after=hv, after_sig=asig,
+                                                                 is_async=rng.choice([False, True, "future", "awaitable"]), after=hv, after_sig=asig,
                                                                  after_async=rng.random() < 0.5)],
                               self.frame(uid, action, req)))
                 # 1b. the same kind of exchange while the connection refuses the write of the reply
